@@ -117,6 +117,7 @@ for _mn, _m in list(_sys.modules.items()):
             _m.dotted_key_exists = _rec_dke
 
 CACHE_LOG = []
+_EVAL_COUNT = [0]
 LOG_LOG = []
 REQ_LOG = []
 TCHK_LOG = []
@@ -856,7 +857,9 @@ def run_eval_op(g, op):
             st.enter_context(recording_runtime(subst))
         try:
             if name == "evaluate":
-                r = obj.evaluate(o)
+                # both public entry points of an evaluation: `x.evaluate(o)` and the call syntax `x(o)`
+                _EVAL_COUNT[0] += 1
+                r = obj(o) if _EVAL_COUNT[0] % 3 == 0 else obj.evaluate(o)
                 r = ["ok", enc(r)]
             elif name == "validate":
                 obj.validate(o)
